@@ -92,6 +92,30 @@ func (v *vocab) schemaOp(g *Gen, kinds []string) Op {
 	return op
 }
 
+var swaggerPaths = []string{"definitions.A.properties", "x.properties", "p.default", "q.example", "items", "definitions.items", "body", "a.properties.properties", "x"}
+
+// swaggerOp: an instance that looks like a schema (members type / items / properties / default) validated with the
+// Swagger rules on, at paths that look like places inside a specification: what spec validation does thousands of
+// times, as a cheap schema-level operation. Path-dependent behaviour of recycled object validators lives here.
+func (v *vocab) swaggerOp(g *Gen) Op {
+	r := g.r
+	inst := M{}
+	if r.Chance(700) {
+		inst["type"] = pick(r, []any{"array", "string", "object", 5})
+	}
+	if r.Chance(600) {
+		inst["items"] = pick(r, []any{M{"type": "string"}, "x", M{}})
+	}
+	if r.Chance(300) {
+		inst["properties"] = M{"items": M{"type": "string"}}
+	}
+	if r.Chance(200) {
+		inst["default"] = 1
+	}
+	schema := pick(r, []string{`{"type":"object"}`, `{"type":"object","properties":{"type":{},"items":{}}}`, `{"properties":{"items":{"type":"object"}},"additionalProperties":true}`, `{}`})
+	return Op{Kind: pick(r, []string{KSchemaRec, KSchemaRec, KSchemaNR, KAgainst}), Schema: schema, Data: js(inst), Swagger: r.Chance(850), Path: pick(r, swaggerPaths), OrderSeed: orderSeedFor(r)}
+}
+
 func (v *vocab) paramOp(g *Gen, recyclePM int) Op {
 	r := g.r
 	if len(v.headers) > 0 && r.Chance(400) {
@@ -118,6 +142,7 @@ func genC04(seed uint64, withSpec bool) *Scenario {
 	v := newVocab(g, r.Range(1, 5), r.Range(1, 3), r.Range(1, 2), maxDepth)
 	// swarm: the operation mix varies per run
 	wAgainst, wRec, wNR, wParam := r.Range(1, 6), r.Range(0, 4), r.Range(0, 2), r.Range(0, 4)
+	wSwag := pick(r, []int{0, 0, 1, 3})
 	wSpec := 0
 	if withSpec {
 		wSpec = 2
@@ -125,7 +150,7 @@ func genC04(seed uint64, withSpec bool) *Scenario {
 			n = 6
 		}
 	}
-	total := wAgainst + wRec + wNR + wParam + wSpec
+	total := wAgainst + wRec + wNR + wParam + wSpec + wSwag
 	ops := make([]Op, 0, n)
 	for i := 0; i < n; i++ {
 		x := r.Intn(total)
@@ -139,6 +164,8 @@ func genC04(seed uint64, withSpec bool) *Scenario {
 			op = v.schemaOp(g, []string{KSchemaNR})
 		case x < wAgainst+wRec+wNR+wParam:
 			op = v.paramOp(g, 750)
+		case x < wAgainst+wRec+wNR+wParam+wSwag:
+			op = v.swaggerOp(g)
 		default:
 			op = specOp(r)
 		}
